@@ -77,9 +77,17 @@ from koda_validate.tuple import tuple_or_list_to_tuple
 from koda_validate.uuid import coerce_uuid
 
 from . import userlib as U
-from .lang import N, P, Some
+from .lang import N, P, Some, freeze
 
 _DT0 = datetime(1, 1, 1)
+
+
+_OBJS: dict = {"by_key": {}, "by_id": {}}
+
+
+def reset_objects() -> None:
+    _OBJS["by_key"].clear()
+    _OBJS["by_id"].clear()
 
 
 class HarnessError(Exception):
@@ -312,7 +320,13 @@ def to_py(t, ct: Optional[ClassTable]) -> Any:
         d = ct.descs[t[1].k]
         kw = {to_py(p.a, ct): to_py(p.b, ct) for p in t[2]}
         if d["kind"] == "plain":
-            return cls()
+            # plain objects compare by identity: one live object per distinct term, per case
+            key = (t[1].k, freeze(t[2]))
+            if key not in _OBJS["by_key"]:
+                o = cls()
+                _OBJS["by_key"][key] = o
+                _OBJS["by_id"][id(o)] = t
+            return _OBJS["by_key"][key]
         return cls(**kw)
     if c == "VSub":
         assert ct is not None
@@ -365,7 +379,12 @@ def from_py(x: Any, ct: Optional[ClassTable]):
         if d["kind"] == "named":
             return ("VObj", N(i), [P(vstr(k), from_py(v, ct)) for k, v in x._asdict().items()])
         if d["kind"] == "plain":
-            return ("VObj", N(i), [])
+            if id(x) not in _OBJS["by_id"]:
+                k = 1000 + len(_OBJS["by_id"])
+                t = ("VObj", N(i), [P(vstr("#"), ("VInt", k))])
+                _OBJS["by_id"][id(x)] = t
+                _OBJS["by_key"][(i, freeze(t[2]))] = x
+            return _OBJS["by_id"][id(x)]
         if d["kind"] == "sub":
             base = {"str": str, "int": int, "dict": dict, "list": list, "float": float,
                     "tuple": tuple, "bytes": bytes, "set": set}[d["base"]]
@@ -469,6 +488,7 @@ class Ctx:
     """Build context for one case: class table, lazy table, object->term map."""
 
     def __init__(self, classes: List[dict], lazy: list, rng: Optional[random.Random] = None):
+        reset_objects()
         self.ct = ClassTable(classes)
         _CURRENT_CT[0] = self.ct
         self.lazy_terms = lazy
